@@ -27,12 +27,14 @@
 -/
 namespace RotoV.Lifetime
 
-/-- the four fields of `ModuleData`, classified by their type -/
+/-- the fields of `ModuleData`, classified by their type -/
 inductive Field
   | constants      -- HashMap<ResolvedName, ConstantValue>   (clones of registered constants)
   | rotoConstants  -- HashMap<ResolvedName, RotoConstant>    (script constants, drop fn lives in the JIT code)
   | registeredFns  -- Vec<Arc<Box<dyn Any>>>                 (clones of registered closures)
   | jit            -- JITModuleWrapper                       (its Drop frees the code)
+  | plain          -- any other container of plain data (Vec / Box / HashSet / String …): dropping it runs no
+                   -- script code and touches nothing else, so its place in the order does not matter
   deriving DecidableEq, Repr, Inhabited
 
 /-- where `free_memory` is called -/
@@ -200,6 +202,7 @@ def dropField (F : Facts) (k : Nat) : Field → St → St
   | .rotoConstants, s => dropScriptConsts k (s.info k).nconst s
   | .registeredFns, s => if (s.info k).keepClos then decClos (s.info k).rt s else s
   | .jit, s => if FreeSite.wrapperDrop ∈ F.freeSites then freeCode k s else s
+  | .plain, s => s
 
 def dropFields (F : Facts) (k : Nat) : List Field → St → St
   | [], s => s
